@@ -8,6 +8,12 @@ COMMON_TRUSTED = [
 ]
 
 CONF = {
+    "C14": {
+        "n": {"quick": 560, "thorough": 8000},
+        "shard": 280,
+        "trusted_base": ["text/template + sprig (int, lt, eq) for the tiny condition language; yaml.v3 decoding of action trees"],
+        "assumptions": ["loop variables / argument paths do not shadow existing data (shadowing is the user's doing, not the mechanism disturbing other data)", "container queries iterate in unspecified order: checked on the Go side as a set"],
+    },
     "C12": {
         "n": {"quick": 600, "thorough": 9000},
         "shard": 300,
